@@ -257,13 +257,12 @@ func costs(c *core.Ctx, kind string, width int, src []byte) (uint64, uint64, boo
 type decStats struct {
 	streams, goOK, goErr       int
 	lenient, strict, emptyRuns int // Go vs the specification decoder
-	overread, quirks, specTurn int
+	overread, specTurn         int
 	foreign, foreignCut        int
 	exOverread, exEmpty        map[string]string
-	exQuirk                    map[string]string
 }
 
-var stats = decStats{exOverread: map[string]string{}, exEmpty: map[string]string{}, exQuirk: map[string]string{}}
+var stats = decStats{exOverread: map[string]string{}, exEmpty: map[string]string{}}
 
 // kinds whose decoder is known to read into the spare capacity of src on
 // malformed input (recorded as an observation, not a violation): none since b47fdb3
@@ -295,23 +294,6 @@ func (k *checker) tieStream(kind string, width int, stream []byte, what string, 
 		stats.goErr++
 	}
 	m := modelDecode(c, kind, width, stream)
-	if g != m && g.status == "ok" && m.status == "ok" && c.Res.Variant != "purego" && !isRLE(kind) {
-		// the assembly kernels are modelled only where well-formed input can reach them
-		sections, kk := 1, "32"
-		if kind == "dba" || kind == "dba_flba" {
-			sections = 2
-		}
-		if kind == "dbp64" {
-			kk = "64"
-		}
-		if q := c.Ask(fmt.Sprintf("c04.go_delta_quirk %d %s %s", sections, kk, core.Hexs(stream))); q == "1" {
-			stats.quirks++
-			if _, seen := stats.exQuirk[kind]; !seen {
-				stats.exQuirk[kind] = fmt.Sprintf("%s, a mini-block bit width above the width of the type, stream %s: this build returns %s, the portable code (and its model) %s", kind, core.Hexs(stream), core.Trunc(g.vals, 200), core.Trunc(m.vals, 200))
-			}
-			return true
-		}
-	}
 	if g != m {
 		if k.ok {
 			c.Mismatch("corr:C04.go_decoder."+kind, fmt.Sprintf("%s width %d stream %s (%s)", kind, width, core.Hexs(stream), what), g.String(), m.String(), rec)
@@ -691,13 +673,10 @@ func reportDecoderStats(c *core.Ctx) {
 		return
 	}
 	c.Note("Go decoders vs their Gallina models (Enc/GoDec*.v): %d streams (Go's own bytes; truncations, bit flips, lying counts, empty runs, trailing bytes derived from them; slices with cap = len): Go ok %d, error %d, no panic; outcome and values equal to the model's on all of them unless a corr:C04.go_decoder.* mismatch is listed", stats.streams, stats.goOK, stats.goErr)
-	c.Note("Go vs specification decoder on those streams: Go accepts / specification rejects %d (Go tolerates a last DELTA mini-block without padding and a short bit-width list), Go rejects / specification accepts %d (Go's header checks, 10-byte varints, run counts above MaxInt32), both accept with different values only when an empty run is present: %d", stats.lenient, stats.strict, stats.emptyRuns)
+	c.Note("Go vs specification decoder on those streams: Go accepts / specification rejects %d (Go tolerates a last DELTA mini-block without padding and a short bit-width list), Go rejects / specification accepts %d (Go's header checks, 10-byte varints, run counts above MaxInt32, mini-block bit widths above the width of the type), both accept with different values only when an empty run is present: %d", stats.lenient, stats.strict, stats.emptyRuns)
 	c.Note("foreign streams (conforming RLE/bit-packed streams with run-length runs of any length, levels / int32 / booleans): %d decoded by Go to the values they were built from; %d of them cut inside their last bit-packed block: Go returns an error (with and without spare capacity)", stats.foreign, stats.foreignCut)
 	for kind, ex := range stats.exEmpty {
 		c.Note("observation: a run header announcing 0 values is skipped by Go's %s decoder without reading a value, the format's grammar gives a run-length run its value: %s", kind, core.Trunc(ex, 500))
-	}
-	for _, ex := range stats.exQuirk {
-		c.Note("observation (malformed input, %d streams, builds with assembly kernels only; values not compared with the model): %s", stats.quirks, core.Trunc(ex, 700))
 	}
 	for kind, ex := range stats.exOverread {
 		c.Note("observation (malformed input, %d streams): Go decoder %s reads beyond len(src): %s", stats.overread, kind, core.Trunc(ex, 600))
